@@ -1198,3 +1198,7 @@ equivalent("c14-eq-parse-restructured", "C14", (T, """        values = [to_float
             values.append(1.0)
         if not (len(values) != expected):
             return values"""))
+mutant("c14-discrete-column-major", "C14", (T, "        return self.values.flatten().tolist()  # type: ignore", "        return self.values.T.flatten().tolist()  # type: ignore"), "T6/Discrete/parameters")
+mutant("c14-discrete-odd-keeps-height-token", "C14", (T, "            self.height = to_float(as_list[-1])\n            del as_list[-1]\n", "            self.height = to_float(as_list[-1])\n"), "T6/Discrete/parameters")
+mutant("c14-function-configure-no-load", "C14", (T, "        self.formula = parameters\n        self.load()\n", "        self.formula = parameters\n"), "T6/Function/parameters")
+mutant("c14-linear-reversed", "C14", (T, "        self.coefficients = [to_float(p) for p in parameters.split()]", "        self.coefficients = [to_float(p) for p in reversed(parameters.split())]"), "T6/Linear/parameters")
